@@ -1,4 +1,4 @@
-// native replay of the units of units/c06_iluk.py against the REAL amgcl::relaxation::iluk / ilup / detail::symb_product.
+// native replay of the units of units/c06_iluk.py against the REAL amgcl::relaxation::iluk / ilup / detail::symb_product / ilut::sparse_vector::move_to.
 // The factors are read through "#define private public" in this test driver only (no change to /repo).
 //
 // Oracles (independent of the code under test):
@@ -44,6 +44,7 @@
 #include <amgcl/relaxation/iluk.hpp>
 #include <amgcl/relaxation/ilu0.hpp>
 #include <amgcl/relaxation/ilup.hpp>
+#include <amgcl/relaxation/ilut.hpp>
 #undef private
 #include "witness.hpp"
 using namespace amgcl;
@@ -427,6 +428,83 @@ static int r_ilup_ctor(const Witness &w) {
     return 0;
 }
 
+// ------------------------------------------------------------------------------------------------ ILUT: sparse_vector::move_to on the witness work vector
+typedef relaxation::ilut<Backend> Ilut;
+static int move_to_on(int n, int dia, const std::vector<int> &cols, const std::vector<double> &vals, int lp, int up, double tol, bool quiet) {
+    Ilut::sparse_vector w(n);
+    w.dia = dia;
+    for (size_t k = 0; k < cols.size(); ++k) w[cols[k]] = vals[k];
+    Crs L, U; L.set_size(n, n, true); U.set_size(n, n, true);
+    const ptrdiff_t L0 = 2, U0 = 1;
+    L.set_nonzeros(L0 + lp); U.set_nonzeros(U0 + up);
+    for (ptrdiff_t e = 0; e < L0 + lp; ++e) { L.col[e] = -7; L.val[e] = 777.0; }
+    for (ptrdiff_t e = 0; e < U0 + up; ++e) { U.col[e] = -7; U.val[e] = 777.0; }
+    backend::numa_vector<double> D(n, false);
+    for (int i = 0; i < n; ++i) D[i] = 555.0;
+    ptrdiff_t Lh = L0, Uh = U0;
+    w.move_to(lp, up, tol, Lh, L, Uh, U, D);
+#define MFAIL(msg) do { if (quiet) { std::cout << "work vector (col:val):"; for (size_t k = 0; k < cols.size(); ++k) std::cout << " " << cols[k] << ":" << vals[k]; std::cout << "  dia=" << dia << " lp=" << lp << " up=" << up << " tol=" << tol << std::endl; } FAIL("ilut move_to: " << msg); } while (0)
+    int candL = 0, candU = 0; double dval = 0;
+    for (size_t k = 0; k < cols.size(); ++k) { if (cols[k] == dia) dval = vals[k]; else if (std::fabs(vals[k]) > tol) { if (cols[k] < dia) ++candL; else ++candU; } }
+    if (Lh - L0 != std::min(candL, lp)) MFAIL((Lh - L0) << " entries appended to L, but min(lp, entries left of the diagonal above the tolerance) = " << std::min(candL, lp));
+    if (Uh - U0 != std::min(candU, up)) MFAIL((Uh - U0) << " entries appended to U, but min(up, entries right of the diagonal above the tolerance) = " << std::min(candU, up) << " are to be kept IN ADDITION to the diagonal");
+    for (int side = 0; side < 2; ++side) {
+        const Crs &F = side ? U : L; const ptrdiff_t b = side ? U0 : L0, e = side ? Uh : Lh;
+        double smallest_kept = 1e300;
+        for (ptrdiff_t s = b; s < e; ++s) {
+            const ptrdiff_t c = F.col[s];
+            if (side ? !(c > dia && c < n) : !(c >= 0 && c < dia)) MFAIL("column " << c << " stored on the wrong side of the diagonal / out of range");
+            if (s + 1 < e && !(c < F.col[s + 1])) MFAIL("columns of the new row not strictly ascending");
+            bool src = false;
+            for (size_t k = 0; k < cols.size(); ++k) if (cols[k] == c && vals[k] == F.val[s] && std::fabs(vals[k]) > tol) src = true;
+            if (!src) MFAIL("entry (" << c << ":" << F.val[s] << ") is not an entry of the work vector above the tolerance");
+            smallest_kept = std::min(smallest_kept, std::fabs(F.val[s]));
+        }
+        for (size_t k = 0; k < cols.size(); ++k) if (cols[k] != dia && (side ? cols[k] > dia : cols[k] < dia) && std::fabs(vals[k]) > tol) {
+            bool keptk = false;
+            for (ptrdiff_t s = b; s < e; ++s) if (F.col[s] == cols[k]) keptk = true;
+            if (!keptk && std::fabs(vals[k]) > smallest_kept) MFAIL("dropped entry (" << cols[k] << ":" << vals[k] << ") is larger in absolute value than a kept one");
+        }
+    }
+    if (!(std::fabs(D[dia] * dval - 1.0) <= 1e-12)) MFAIL("D[dia] = " << D[dia] << " is not the inverse of the diagonal value " << dval);
+    for (int i = 0; i < n; ++i) if (i != dia && D[i] != 555.0) MFAIL("D[" << i << "] was written");
+    for (ptrdiff_t e = 0; e < L0; ++e) if (L.val[e] != 777.0) MFAIL("an earlier row of L was overwritten");
+    for (ptrdiff_t e = 0; e < U0; ++e) if (U.val[e] != 777.0) MFAIL("an earlier row of U was overwritten");
+    if (!w.nz.empty()) MFAIL("the work vector is not empty afterwards");
+    for (int c = 0; c < n; ++c) if (w.idx[c] != -1) MFAIL("idx[" << c << "] is not reset");
+#undef MFAIL
+    return 0;
+}
+static int r_ilut_move_to(const Witness &w) {
+    const int n = (int)w.num("w_n"), cnt = (int)w.num("w_cnt"), dia = (int)w.num("w_dia"), lp = (int)w.num("w_lp"), up = (int)w.num("w_up");
+    const double tol = w.num("w_tol");
+    std::vector<double> c = w.arr("w_col"), nr = w.arr("w_norm");
+    arm();
+    bool usable = n >= 1 && cnt >= 1 && cnt <= n && (int)c.size() >= cnt && (int)nr.size() >= cnt && dia >= 0 && dia < n && lp >= 0 && up >= 0;
+    std::vector<int> cols; std::vector<double> vals; bool hasd = false;
+    for (int k = 0; usable && k < cnt; ++k) {
+        const int cc = (int)c[k];
+        if (cc < 0 || cc >= n || std::count(cols.begin(), cols.end(), cc)) { usable = false; break; }
+        cols.push_back(cc); vals.push_back((k % 2 ? -1.0 : 1.0) * nr[k]); if (cc == dia) { hasd = true; if (vals.back() == 0) vals.back() = 0.5; }
+    }
+    if (usable && hasd) {
+        std::cout << "work vector (col:val):"; for (size_t k = 0; k < cols.size(); ++k) std::cout << " " << cols[k] << ":" << vals[k]; std::cout << "  dia=" << dia << " lp=" << lp << " up=" << up << " tol=" << tol << std::endl;
+        int rc = move_to_on(n, dia, cols, vals, lp, up, tol, false);
+        if (rc) return rc;
+        std::cout << "-- witness input holds on the real code; ";
+    } else std::cout << "-- witness not usable; ";
+    std::cout << "20000 random work vectors n <= 6" << std::endl;
+    for (int t = 0; t < 20000; ++t) {
+        const int nn = 1 + rnd() % 6, dd = rnd() % nn;
+        std::vector<int> cs; std::vector<double> vs;
+        for (int cc = 0; cc < nn; ++cc) if (cc == dd || rnd() % 100 < 60) { cs.push_back(cc); vs.push_back((rnd() % 2 ? -1.0 : 1.0) * (1 + rnd() % 7) * (cc == dd ? 1.0 : 0.5)); }
+        for (size_t k = cs.size(); k > 1; --k) { size_t j = rnd() % k; std::swap(cs[k - 1], cs[j]); std::swap(vs[k - 1], vs[j]); }
+        int rc = move_to_on(nn, dd, cs, vs, rnd() % 5, rnd() % 5, 0.25 * (rnd() % 12), true);
+        if (rc) return rc;
+    }
+    return 0;
+}
+
 int main(int argc, char **argv) {
     if (argc < 3) return 2;
     omp_set_dynamic(0); omp_set_num_threads(1);      // the constructors are deterministic for every thread count; one thread keeps the batteries fast on a busy host
@@ -438,6 +516,7 @@ int main(int argc, char **argv) {
     if (unit.compare(0, 15, "iluk_row_values") == 0) return r_iluk_row(w, true);
     if (unit == "ilup_symb_product") return r_ilup_symb(w);
     if (unit == "ilup_ctor") return r_ilup_ctor(w);
+    if (unit == "ilut_move_to") return r_ilut_move_to(w);
     std::cout << "no replay for unit " << unit << std::endl;
     return 3;
 }
